@@ -5,6 +5,7 @@ import (
 	"fmt"
 	"reflect"
 	"regexp"
+	"strconv"
 	"strings"
 	"time"
 
@@ -129,6 +130,11 @@ func execMatch(c *fw.Ctx, cs Case) outcome {
 		c.Observe("domain", "outside-domain (executed, no verdict demanded)", 1)
 		for why := range o.Ref.ood {
 			c.Observe("outside_domain_reasons", why, 1)
+		}
+		if o.Ref.ood[oodExdateList] > 0 && strings.Contains(strings.ToLower(o.Err), "exdate") {
+			// a valid object (RFC 5545 3.8.5.1) Match cannot evaluate
+			c.Report("recurring|EXDATE property holding a list of values|Match fails with an exdate parse error",
+				"Match failed with "+strconv.Quote(o.Err)+" on a valid recurring event whose EXDATE property lists several dates", cs)
 		}
 		if o.Panic != "" {
 			c.Observe("outside_domain_behaviour", "panic: "+o.Panic, 1)
